@@ -24,5 +24,5 @@ Theorem k_jitin_interval_safe : forall args, Pre_jitin_interval args ->
   forall fuel, safe_outcome (run fuel k_jitin_interval args).
 Proof.
   intros args (d1 & d2 & d3 & ta & s & e & -> & H) fuel.
-  safe_start k_jitin_interval ann_jitin_interval. vc.
+  safe_start k_jitin_interval ann_jitin_interval. vc k_jitin_interval ann_jitin_interval.
 Qed.
